@@ -233,6 +233,10 @@ func trieRun(c *sim.Ctx) {
 				}
 			case 1: // rewrite of the same value
 				v = model[k]
+			case 2: // a value at the edge of the field / of the hash operand decomposition
+				bv := refmpt.BoundaryValues()
+				v = bv[t.Draw("trie.boundary", len(bv))]
+				c.Probe("boundary_value")
 			default:
 				v = felt.FromUint64[felt.Felt](uint64(1 + t.Draw("trie.v", 1000)))
 			}
@@ -300,6 +304,10 @@ func tempTrieRun(c *sim.Ctx) {
 			k = felt.FromUint64[felt.Felt](uint64(t.Draw("temp.key8", 256)))
 		}
 		v := felt.FromUint64[felt.Felt](uint64(t.Draw("temp.v", 50)))
+		if t.Draw("temp.vclass", 6) == 5 {
+			bv := refmpt.BoundaryValues()
+			v = bv[t.Draw("temp.boundary", len(bv))]
+		}
 		seq = append(seq, kvp{k, v})
 		if v.IsZero() {
 			delete(model, k)
